@@ -88,6 +88,24 @@ def scalar_family():
                                'root': ('cls', 'K')},
                 lambda b: [b.classes['K'](p, [_copy(p), pathlib.Path('x')], {'k': _copy(p)}) for p in values.PATHS]))
     fam.append(('enums', {'classes': BASE, 'root': ('cls', 'E')}, lambda b: list(b.classes['E'])))
+    for mix in ('str', 'int'):
+        em = {'name': 'Em', 'kind': 'enum', 'mixin': mix, 'members': ['high', 'low', 'true', 'a_b']}
+        fam.append(('enums-mixin-%s' % mix, {'classes': BASE + [em], 'root': ('cls', 'Em')}, lambda b: list(b.classes['Em'])))
+        fam.append(('enums-mixin-%s-coll' % mix, {'classes': BASE + [em], 'root': ('dict', 'str', ('list', ('cls', 'Em')))},
+                    lambda b: [{'k': list(b.classes['Em'])}]))
+        fam.append(('enums-mixin-%s-attr' % mix,
+                    {'classes': BASE + [em, _K([('e', ('cls', 'Em')), ('o', ('opt', ('cls', 'Em')), None)])], 'root': ('cls', 'K')},
+                    lambda b: [b.classes['K'](e, o) for e in b.classes['Em'] for o in (None, e)]))
+    OD = collections.OrderedDict
+    for pos in (0, 1):
+        kx = _K([('x', 'int'), ('y', 'int', 0), ('z', 'str', 'd')][:3] if pos == 1 else [('y', 'int', 0), ('z', 'str', 'd')],
+                extra=True, extra_pos=pos)
+        if pos == 1:
+            mk = lambda b: [b.classes['K'](1, OD(), 2), b.classes['K'](1, OD([('zeta', 1), ('alpha', 'a')]), 2, 'w'),   # noqa
+                            b.classes['K'](3, OD([('q', [1, {'r': None}])]))]
+        else:
+            mk = lambda b: [b.classes['K'](OD([('zeta', 1), ('alpha', 'a')]), 2, 'w'), b.classes['K'](OD(), 5)]   # noqa
+        fam.append(('extras-declared-at-%d' % pos, {'classes': BASE + [kx], 'root': ('cls', 'K')}, mk))
     fam.append(('enums-coll', {'classes': BASE, 'root': ('dict', 'str', ('list', ('cls', 'E')))},
                 lambda b: [{'k': list(b.classes['E'])}]))
     fam.append(('enums-union', {'classes': BASE, 'root': ('list', ('union', ['int', ('cls', 'E')]))},
@@ -176,6 +194,35 @@ def inverse_family():
                                 'root': ('cls', 'K')},
                 lambda b: [b.classes['K']([b.classes['It'](k, i, w) for i, (k, w) in enumerate(ks)])
                            for ks in ([], [('a', 'dw')], [('a', 'dw'), ('b', 'x')], [('b', 'x'), ('a', 'y')])]))
+    # the same two pairs where the key / the key attribute is not a plain str: the dict key node and the
+    # re-created key attribute are then processed as different types
+    mkk = {'str': lambda b, k: k, 'S': lambda b, k: b.classes['S'](k), 'Sy': lambda b, k: b.classes['Sy'](k),
+           'Ss': lambda b, k: b.classes['Ss'](k), 'path': lambda b, k: pathlib.Path(k), 'E': lambda b, k: b.classes['E'][k]}
+    tyk = {'str': 'str', 'S': ('cls', 'S'), 'Sy': ('cls', 'Sy'), 'Ss': ('cls', 'Ss'), 'path': 'path', 'E': ('cls', 'E')}
+    for kt, it in (('S', 'str'), ('Sy', 'str'), ('Ss', 'str'), ('str', 'path'), ('str', 'E'), ('str', 'S'), ('Sy', 'Sy'), ('S', 'E')):
+        item2 = {'name': 'It', 'params': [('id', tyk[it]), ('v', 'int'), ('w', 'str', 'dw')]}
+        keys = ['red', 'a_b'] if 'E' in (kt, it) else ['a', 'red']
+        fam.append(('inverse-index:%s/%s' % (kt, it),
+                    {'classes': BASE + [item2, _K([('items', ('dict', tyk[kt], ('cls', 'It')))],
+                                                  hooks={'sweeten': [('index_to_map', 'items', 'id', 'v')],
+                                                         'savorize': [('map_to_index', 'items', 'id', 'v')],
+                                                         'recognize': [('require_attr', 'items')]})],
+                     'root': ('cls', 'K')},
+                    lambda b, kt=kt, it=it, keys=keys: [
+                        b.classes['K'](collections.OrderedDict((mkk[kt](b, k), b.classes['It'](mkk[it](b, k), i, w))
+                                                               for i, (k, w) in enumerate(ks)))
+                        for ks in ([(keys[0], 'dw')], [(keys[0], 'dw'), (keys[1], 'x')])]))
+    for it in ('path', 'E', 'S', 'Sy'):
+        item2 = {'name': 'It', 'params': [('id', tyk[it]), ('v', 'int'), ('w', 'str', 'dw')]}
+        keys = ['red', 'a_b']
+        fam.append(('inverse-seq:%s' % it,
+                    {'classes': BASE + [item2, _K([('items', ('list', ('cls', 'It')))],
+                                                  hooks={'sweeten': [('seq_to_map', 'items', 'id', 'v')],
+                                                         'savorize': [('map_to_seq', 'items', 'id', 'v')],
+                                                         'recognize': [('require_attr', 'items')]})],
+                     'root': ('cls', 'K')},
+                    lambda b, it=it, keys=keys: [b.classes['K']([b.classes['It'](mkk[it](b, k), i, w) for i, (k, w) in enumerate(ks)])
+                                                 for ks in ([(keys[0], 'dw')], [(keys[0], 'dw'), (keys[1], 'x')])]))
     fam.append(('inverse-dashes', {'classes': BASE + [_K([('a_b', 'int'), ('c_d_e', 'str', 'x')],
                                                          hooks={'sweeten': [('unders_to_dashes',)], 'savorize': [('dashes_to_unders',)]})],
                                    'root': ('list', ('cls', 'K'))},
